@@ -41,6 +41,7 @@ func main() {
 	flag.IntVar(&sweepLimit, "sweep", -1, "mutation sweep: number of sampled mutants (default: 0 in quick, 400 in thorough)")
 	sweepAll := flag.String("sweepall", "", "development aid: comma-separated file globs; mutate every function in them and run all rules")
 	flag.Parse()
+	sweepVerifDir = *verif
 	if *sweepAll != "" {
 		os.Exit(runSweepAll(*root, *verif, *sweepAll, sweepLimit, true))
 	}
